@@ -143,7 +143,7 @@ SPECS["C01"] = dict(
         note='Trusted: Coq 8.16.1 kernel; extraction with ExtrOcamlBasic only; OCaml driver and Rust harness glue; the tie of the hand-written model to /repo is the correspondence check (differential testing on the generated inputs, rebuilt from the working tree every run), not a proof about the Rust source. usize wrap-around is not modelled.',
         technique='Coq proof (Myers middle-snake theory, conquer invariants, LCS) + model/implementation correspondence + verified checker on implementation output',
     ),
-    relevant=lambda comp, kv: {"no_panic", "no_error", "raw_valid", "finish_last"},
+    relevant=lambda comp, kv: {"no_panic", "no_error", "raw_valid", "finish_last", "big_offsets"},
     run=run_C01,
     generators="raw component, recording hook, no deadline: every pair of binary sequences up to length 3 (quick) "
                "/ 4 (thorough) with every pair of sub-ranges for the three algorithms, a third of them also through an "
@@ -263,6 +263,23 @@ def run_C03(ctx):
     big = random_world(ctx, tiered(ctx, 20, 200), 250,
                        lambda a, b, r, idx: [gen.capture_line("M", a, b, r, idx=idx)])
     C.evaluate(ctx, "capture-random-250", big, rel)
+    # boxes that need many thousands of rounds (an internal cap on the number of rounds would show here): nearly
+    # unrelated sequences with a planted common subsequence of unique large values; a minimal script must use it
+    huge = []
+    for n in tiered(ctx, [9000], [3000, 9000, 12000]):
+        a = [2 * i for i in range(n)]
+        b = [2 * i + 1 for i in range(n)]
+        ctx.rng.shuffle(a)
+        ctx.rng.shuffle(b)
+        k = 150
+        pa = sorted(ctx.rng.sample(range(n), k))
+        pb = sorted(ctx.rng.sample(range(n), k))
+        for j in range(k):
+            a[pa[j]] = 10 ** 7 + j
+            b[pb[j]] = 10 ** 7 + j
+        huge.append(gen.raw_line("M", a, b) + " planted=10000000")
+        ctx.count("raw:planted-subsequence-%d" % n)
+    C.evaluate(ctx, "raw-many-rounds", huge, rel, x=False, cap=300)
 
 
 SPECS["C03"] = dict(
@@ -272,11 +289,12 @@ SPECS["C03"] = dict(
         note='Trusted: Coq 8.16.1 kernel; extraction with ExtrOcamlBasic only; OCaml driver and Rust harness glue; the tie of the hand-written model to /repo is the correspondence check (differential testing on the generated inputs, rebuilt from the working tree every run), not a proof about the Rust source. usize wrap-around is not modelled.',
         technique='Coq proof (edit-graph theory, snake correctness, LCS DP) + correspondence + verified checker against extracted optimum',
     ),
-    relevant=lambda comp, kv: {"no_panic", "minimal", "equal_is_lcs", "ratio_2L"},
+    relevant=lambda comp, kv: {"no_panic", "minimal", "minimal_planted", "equal_is_lcs", "ratio_2L"},
     run=run_C03,
     generators="raw and capture components, algorithms Myers and LCS, no deadline: exhaustive small worlds with "
                "sub-ranges, structured random pairs up to 100, Myers capture up to 250; the optimum is computed by the "
-               "extracted lcs_len (Check/Script.v)",
+               "extracted lcs_len (Check/Script.v); nearly unrelated sequences of 9000 (thorough: up to 12000) items with a "
+               "planted common subsequence, where a minimal script needs more than 8000 rounds and must use the planted items",
 )
 
 
@@ -1193,6 +1211,29 @@ def run_C16(ctx):
     for _ in range(tiered(ctx, 300, 3000)):
         t, alpha = gen.rand_lines_text(ctx.rng, 6, invalid=True)
         pairs.append((t, gen.edit_lines_text(ctx.rng, t, alpha), "bytes"))
+    # long lines: Replace blocks with many word tokens (more than 100 on a side), different counts on the two sides
+    for _ in range(tiered(ctx, 40, 400)):
+        nw = ctx.rng.choice([30, 49, 51, 60, 90, 130])
+        words = [ctx.rng.choice(gen.WORDS) for _ in range(nw)]
+        l1 = b" ".join(words)
+        w2 = list(words)
+        for _k in range(ctx.rng.randrange(1, 4)):
+            r = ctx.rng.random()
+            pos = ctx.rng.randrange(len(w2))
+            if r < 0.4:
+                w2[pos] = b"changed"
+            elif r < 0.7:
+                w2.insert(pos, b"extra")
+            elif len(w2) > 2:
+                del w2[pos]
+        l2 = b" ".join(w2)
+        pre = ctx.rng.choice([b"", b"head\n"])
+        post = ctx.rng.choice([b"\n", b"\ntail\n", b""])
+        o, n = pre + l1 + post, pre + l2 + post
+        if ctx.rng.random() < 0.3:
+            n = pre + l2 + b"\n" + l1[: len(l1) // 2] + post      # more lines on one side
+        pairs.append((o, n, "str" if ctx.rng.random() < 0.5 else "bytes"))
+        ctx.count("inline:long-lines")
     # the word oracle for every line of every text (MultiLookup uses tokenize_unicode_words)
     import re as _re
     need = {"str": set(), "bytes": set()}
